@@ -9,11 +9,11 @@
      * '#' starts a comment only where a token could start; the comment runs to the end of the line;
      * ';' and '{' end a bare token and are terminators; '}' is a terminator only where a token could start;
      * '{' directly after '$' ("${") belongs to the token.
-   Where NGINX would stop with an error the model goes on (that is the lenient part; it can only make MORE
-   words count as names, so an implementation that is correct w.r.t. it is on the safe side on well-formed
-   input and the model is total on ill-formed input): a closing quote ends the token even if no space
-   follows, a terminator with no words before it is an empty statement, '}' at depth 0 is ignored, the end of
-   the text ends an open token / statement.
+   Where NGINX would stop with an error the model goes on (the lenient part: on well-formed text it agrees with
+   NGINX; on ill-formed text, which NGINX rejects as a whole, it is still total and still designates only words
+   that stand in name position): a closing quote ends the token even if no space follows, a terminator with no
+   words before it is an empty statement, '}' at depth 0 is ignored, the end of the text ends an open token /
+   statement.
    The text of a token is kept verbatim (escapes are not resolved), only the enclosing quotes are dropped.
 
    [stmts] groups the tokens into statements, each with the block depth it stands at; a snippet is included
